@@ -430,8 +430,15 @@ def check(run):
               prog.where(roots[-1]))
     # mnemonic_new -> mnemonic_is_valid under the same decisions
     fnew, fvalid = km.funcs['mnemonic_new'], km.funcs['mnemonic_is_valid']
-    for decisions in ((0,), (1, 0), (1, 1, 0)):
+    # a bounded retry loop (`for _ in range(N)` with the counter unused): walked for three draws and then as exhausted - what is returned after
+    # the last rejected draw must be valid as well
+    capped = any(isinstance(x, ast.For) and isinstance(x.iter, ast.Call) and isinstance(x.iter.func, ast.Name) and x.iter.func.id == 'range'
+                 and isinstance(x.target, ast.Name) and not any(isinstance(y, ast.Name) and y.id == x.target.id and isinstance(y.ctx, ast.Load) for y in ast.walk(x))
+                 for x in ast.walk(fnew.node))
+    for decisions in ((0,), (1, 0), (1, 1, 0)) + (((1, 1, 1),) if capped else ()):
         it = mk(prog)
+        if capped:
+            it.RANGE_CAP = 3
         ctr = [0]
 
         def summary(f, args, kw, ctr=ctr):
@@ -451,7 +458,10 @@ def check(run):
             ok = tv is True and len(it.pathcond) == n0 and isinstance(res, ListV) and len(res.items) == 24
             why = f'after {len(decisions) - 1} rejected draw(s): returned {len(res.items) if isinstance(res, ListV) else "?"} words; mnemonic_is_valid -> {tv} with {len(it.pathcond) - n0} new undecided condition(s)'
         except RaiseEx as e:
-            ok, why = False, f'raises {e}'
+            if getattr(it, 'range_capped', False) and all(decisions):
+                ok, why = True, f'every draw of the bounded retry loop rejected: raises {e.kind} (no mnemonic is returned)'
+            else:
+                ok, why = False, f'raises {e}'
         except Fail as e:
             raise AnalysisError(f'mnemonic_new not interpretable: {e}')
         run.check(ok, 'D4', 'mnemonic_new/mnemonic_is_valid' if not ok else f'mnemonic_new[{len(decisions) - 1} retries]', why, prog.where(fnew))
